@@ -172,7 +172,7 @@ def drange(t0 = None, t1 = None, bump = None):
         if bump == bmp: ## single bump
             prd = bump[-1]
             interval = int(bump[:-1]) * dict(q = 3).get(prd ,1)
-            if (t1-t0).days * interval < 0:
+            if (t1 > t0) != (interval > 0): ## (t1-t0).days is 0 for endpoints less than a day apart
                 raise ValueError('cannot go from %s to %s in steps of %s'%(t0,t1,bump))
             freq = _LY[prd]
             if prd == 'b':
@@ -180,6 +180,12 @@ def drange(t0 = None, t1 = None, bump = None):
                 res = res[::-1] if interval<0 else res    
                 res = res[::abs(interval)] if abs(interval)>1 else res
                 return res            
+            elif interval < 0: ## rrule cannot walk backwards: iterate dt_bump from t0 down to t1
+                res = []; t = t0
+                while t >= t1:
+                    res.append(t)
+                    t = dt_bump(t, bump)
+                return res
             else:
                 return list(rrule(freq, interval = interval, dtstart = t0, until = t1))
         else:
